@@ -37,6 +37,7 @@ def main():
     ap.add_argument("--tier", default="quick")
     ap.add_argument("--time", type=float, default=0)
     ap.add_argument("--seeded", action="store_true")
+    ap.add_argument("--benign", action="store_true", help="behaviour-preserving changes (benign/<id>/patch.diff): every check must stay quiet")
     ap.add_argument("--keep", action="store_true")
     ap.add_argument("--json")
     a = ap.parse_args()
@@ -48,6 +49,13 @@ def main():
             if os.path.exists(meta):
                 m = json.load(open(meta))
                 items.append({"id": name, "prop": m["property"], "patch": os.path.join(sd, name, "patch.diff"), "checks": m.get("checks", [m["property"]])})
+    elif a.benign:
+        sd = os.path.join(VERIF, "benign")
+        for name in sorted(os.listdir(sd)):
+            meta = os.path.join(sd, name, "meta.json")
+            if os.path.exists(meta):
+                m = json.load(open(meta))
+                items.append({"id": name, "prop": m["property"], "patch": os.path.join(sd, name, "patch.diff"), "checks": m["checks"]})
     else:
         from catalog import MUTANTS
         for m in MUTANTS:
@@ -74,6 +82,8 @@ def main():
                 rc, out, dt = run_check(scratch, prop, a.tier, a.time)
                 viol = [l for l in out.splitlines() if l.startswith("VIOLATION") or l.startswith("  C")]
                 status = "CAUGHT" if rc == 1 else ("INFRA" if rc == 2 else "MISSED")
+                if a.benign:
+                    status = "QUIET" if rc == 0 else ("INFRA" if rc == 2 else "ALARM")
                 print("%-7s %-44s %s %5.1fs  %s" % (status, m["id"], prop, dt, (viol[0].strip()[:150] if viol else "")))
                 if rc == 2:
                     print(out[-1500:])
@@ -84,6 +94,10 @@ def main():
                 shutil.rmtree(scratch, ignore_errors=True)
     if a.json:
         json.dump(results, open(a.json, "w"), indent=1)
+    if a.benign:
+        loud = [r for r in results if r["status"] != "QUIET"]
+        print("%d benign runs, %d quiet, %d not quiet" % (len(results), len(results) - len(loud), len(loud)))
+        return 0
     missed = [r for r in results if r["status"] != "CAUGHT"]
     print("%d mutants run, %d caught, %d not caught" % (len(results), len(results) - len(missed), len(missed)))
     return 0
